@@ -153,7 +153,42 @@ func (c *Ctx) prfPlusRules(r *Report, prefix string) {
 			}
 		}
 	}
-	if streamPhi == nil || blockPhi == nil || iPhi == nil {
+	// offset form of the chaining block: an integer φ off with T(n-1) = stream[off:], off = 0 at first and
+	// len(Sum result) - Size() afterwards; the counter is then the other integer φ
+	var offPhi *ssa.Phi
+	offIsFeedback := false
+	if blockPhi == nil {
+		for _, ins := range li.header.Instrs {
+			p, ok := ins.(*ssa.Phi)
+			if !ok || isByteSlice(p.Type()) {
+				continue
+			}
+			zero, step := false, false
+			for _, e := range p.Edges {
+				if k, ok := e.(*ssa.Const); ok {
+					if v, _ := constInt64(k.Value); v == 0 {
+						zero = true
+					}
+				} else if f.LFOf(e).key() == f.SliceLen(sum).add(f.LFOf(size), -1).key() {
+					step = true
+				} else if f.LFOf(e).key() == f.LFOf(size).key() {
+					step, offIsFeedback = true, true // the number of octets fed back: T(n-1) = stream[len(stream)-q:]
+				}
+			}
+			if zero && step {
+				offPhi = p
+			}
+		}
+		if offPhi != nil {
+			iPhi = nil
+			for _, ins := range li.header.Instrs {
+				if p, ok := ins.(*ssa.Phi); ok && !isByteSlice(p.Type()) && p != offPhi {
+					iPhi = p
+				}
+			}
+		}
+	}
+	if streamPhi == nil || (blockPhi == nil && offPhi == nil) || iPhi == nil {
 		r.bad(rule, "lib.PrfPlus: loop state", c.Pos(fn.Pos()), "cannot identify the stream, block and counter loop variables")
 		return
 	}
@@ -165,8 +200,21 @@ func (c *Ctx) prfPlusRules(r *Report, prefix string) {
 	okW, detail := false, "Write argument is not block | s | byte(i)"
 	fw := c.NewFA(fn)
 	if parts, ok := c.concatOf(fw, write.Call.Args[0], write, 0); ok {
-		want := []cpart{{Kind: "slice", Val: blockPhi}, {Kind: "slice", Val: fn.Params[1]}, {Kind: "byte", Val: iPhi}}
-		if sameParts(parts, want) {
+		var blockVal ssa.Value = blockPhi
+		if blockPhi == nil && len(dropEmpty(parts)) > 0 {
+			// the first piece must be stream[off:]
+			if sl, ok := dropEmpty(parts)[0].Val.(*ssa.Slice); ok && sl.X == ssa.Value(streamPhi) && sl.High == nil && sl.Low != nil {
+				wantLow := fw.LFOf(offPhi)
+				if offIsFeedback {
+					wantLow = fw.SliceLen(streamPhi).add(fw.LFOf(offPhi), -1)
+				}
+				if fw.LFOf(sl.Low).key() == wantLow.key() {
+					blockVal = sl
+				}
+			}
+		}
+		want := []cpart{{Kind: "slice", Val: blockVal}, {Kind: "slice", Val: fn.Params[1]}, {Kind: "byte", Val: iPhi}}
+		if blockVal != nil && sameParts(parts, want) {
 			okW = true
 			detail = "Write(block | s | byte(i))"
 		} else {
@@ -197,21 +245,34 @@ func (c *Ctx) prfPlusRules(r *Report, prefix string) {
 	}
 	r.Check(okI, rule, "lib.PrfPlus: counter starts at 1 and increases by 1", c.InstrPos(iPhi), "i = 1, 2, 3, ...", "the block counter does not run 1, 2, 3, ...")
 	okB := false
-	for _, e := range blockPhi.Edges {
-		if sl, ok := e.(*ssa.Slice); ok && sl.X == ssa.Value(sum) && sl.High == nil && sl.Low != nil {
-			want := f.SliceLen(sum).add(f.LFOf(size), -1)
-			if f.LFOf(sl.Low).key() == want.key() {
-				okB = true
+	initNil := false
+	posB := c.Pos(fn.Pos())
+	if blockPhi != nil {
+		posB = c.InstrPos(blockPhi)
+		for _, e := range blockPhi.Edges {
+			if sl, ok := e.(*ssa.Slice); ok && sl.X == ssa.Value(sum) && sl.High == nil && sl.Low != nil {
+				want := f.SliceLen(sum).add(f.LFOf(size), -1)
+				if f.LFOf(sl.Low).key() == want.key() {
+					okB = true
+				}
+			}
+		}
+		for _, e := range blockPhi.Edges {
+			if isNilConst(e) {
+				initNil = true
+			}
+		}
+	} else {
+		// offset form: identified above by exactly these two edges; T(0) is empty because the stream starts nil
+		posB = c.InstrPos(offPhi)
+		okB = true
+		for _, e := range streamPhi.Edges {
+			if isNilConst(e) {
+				initNil = true
 			}
 		}
 	}
-	initNil := false
-	for _, e := range blockPhi.Edges {
-		if isNilConst(e) {
-			initNil = true
-		}
-	}
-	r.Check(okB && initNil, rule, "lib.PrfPlus: T(n) = last Size() octets of the stream, T(0) empty", c.InstrPos(blockPhi), "block = stream[len(stream)-prf.Size():], initially nil", "the chaining block is not the last hash output")
+	r.Check(okB && initNil, rule, "lib.PrfPlus: T(n) = last Size() octets of the stream, T(0) empty", posB, "block = stream[len(stream)-prf.Size():], initially nil", "the chaining block is not the last hash output")
 	// return stream[:streamLen]
 	okR := false
 	for _, b := range fn.Blocks {
@@ -497,11 +558,31 @@ func (c *Ctx) registryLengthRulesOf(r *Report, rule string, which int, floor int
 			r.undecided(rule, rs.Rel+"."+rs.Types[which], "-", err.Error())
 			continue
 		}
+		byRow := map[*algoRow][]string{}
+		complete := true
+		defer func(rs regSpec, byRow map[*algoRow][]string, complete *bool) {
+			// every algorithm of the RFC table for this transform type is registered by exactly one entry of its
+			// own (two names sharing one descriptor leave a suite without its key length)
+			if !*complete {
+				return
+			}
+			for i := range algoSpec {
+				a := &algoSpec[i]
+				if a.TType != rs.TType {
+					continue
+				}
+				key := rs.Rel + "." + rs.Types[which] + ": " + a.Name
+				if n := len(byRow[a]); n != 1 {
+					r.bad(rule, key, "-", fmt.Sprintf("the RFC table's algorithm %s (key length %d) is described by %d registry entries %v: every negotiable algorithm needs exactly one descriptor of its own", a.Name, a.KeyLen, n, byRow[a]))
+				}
+			}
+		}(rs, byRow, &complete)
 		for _, e := range ents {
 			name := e.Key.ExactString()
 			di := c.describe(name, c.descriptorOf(e.Val), e.Site)
 			key := rs.Rel + "." + rs.Types[which] + "[" + name + "]"
 			if di.Err != "" {
+				complete = false
 				r.undecided(rule, key, di.Pos, di.Err)
 				continue
 			}
@@ -516,6 +597,7 @@ func (c *Ctx) registryLengthRulesOf(r *Report, rule string, which int, floor int
 				r.bad(rule, key, di.Pos, "not in the RFC table")
 				continue
 			}
+			byRow[row] = append(byRow[row], name)
 			var bad []string
 			if di.KeyLen != row.KeyLen {
 				bad = append(bad, fmt.Sprintf("key length %d, RFC %d", di.KeyLen, row.KeyLen))
@@ -631,6 +713,16 @@ func RunC08(c *Ctx, r *Report) {
 				}
 			}
 			root, lo, hi, open := f.relSpan(src)
+			if root == ssa.Value(stream) && open {
+				// an open upper end is the end of KEYMAT: fine when the facts at the store make len(KEYMAT) the
+				// prescribed end (a length check, or PrfPlus's postcondition)
+				facts := f.FactsAt(st.Block())
+				ge, _ := f.Prove(hi.add(end, -1), facts)
+				le, _ := f.Prove(end.add(hi, -1), facts)
+				if ge && le {
+					hi, open = end, false
+				}
+			}
 			if root == ssa.Value(stream) && !open {
 				if lo.key() == start.key() && hi.key() == end.key() {
 					good = true
@@ -707,7 +799,7 @@ func (c *Ctx) seedShapePresized(fn *ssa.Function) (bool, string) {
 			}
 			return true
 		}
-		for _, r := range fm.Rows {
+		for _, r := range mergeByteRows(fm.Rows) {
 			switch {
 			case r.Octets == 8 && r.Off.key() == nl.key() && isParam(r.Val, fn.Params[1]):
 				ok1 = true
